@@ -1,10 +1,10 @@
 """C18 -- results depend only on the arguments, not on output channel or call history.
 
-Theorems: Props/C18.v
+Theorems: Props/C18.v  (state of the code after notes/proposed_fixes/C18-*.diff)
   C18_file_eq_string   (all line lists, all flush sizes: file = string = concat)
-  C18_history_partial  (all pipelines, histories of any length inside C18_dom: run = spec)
-  C18_free_partial     (the instance this check runs)
-  C18_{threshold,shacl_prefix,shared_dict,examples}_refuted (known findings)
+  C18_pure             (all pipelines, ALL well-formed histories of any length: run = spec)
+  C18_free_pure        (the instance this check runs)
+  findings C18-F1..F4 are fixed; their pinned histories are replayed as regression cases
 
 Implementation side: the real Shaper driven through call histories -- ALL sequences of
 length <= 3 over the 13-operation alphabet {shex_graph(ShExC|SHACL, string|file,
@@ -186,8 +186,9 @@ class Runner(object):
             if how == "own":
                 d = dict(self.cfg["ns"]) if self.cfg["ns"] is not None else None
                 sh = Shaper(namespaces_dict=d, shapes_namespace=sns, **kw)
-                # the caller's object; for namespaces_dict=None the {} the Shaper made (nobody else can hold it)
-                self.dicts.append(d if d is not None else sh._namespaces_dict)
+                # the caller's object (never written any more); for namespaces_dict=None there is none: an empty
+                # stand-in keeps the numbering of the model's list of caller dictionaries
+                self.dicts.append(d if d is not None else {})
                 self.dict_of[who] = len(self.dicts) - 1
             else:
                 j = self.dict_of[how[1]]
@@ -570,9 +571,12 @@ def run(tier, seed, replay=None):
             run.internal_errors.append("extracted binary and vm_compute disagree (C18): %s %s" % (mism[:5], log[-300:]))
     mb.close()
 
-    # ---- pinned reproducers of the known findings
-    for fid in sorted(known_ids):
+    # ---- pinned reproducers: known findings must still fail, fixed ones must pass (regression cases)
+    regressions = []
+    for fid in sorted(findings):
         f = findings[fid]
+        if f.get("status") not in ("known", "fixed") or "history" not in f.get("reproducer", {}):
+            continue
         rp = f["reproducer"]
         cfg = cfgs[rp["config"]]
         h = history_from_json(rp)
@@ -581,11 +585,16 @@ def run(tier, seed, replay=None):
         op = h[k]
         sns = next(o[3] for o in h if o[0] == "N" and o[1] == op[1])
         want, _ = reference(cfg, op, sns)
-        if outs[k][1:] != want:
+        if f.get("status") == "fixed":
+            if outs[k][1:] != want:
+                regressions.append((fid, rp["config"], h, k))
+        elif outs[k][1:] != want:
             run.known_finding(fid, "%s [history %s, op %d differs from a fresh Shaper's answer]" % (
                 f["what"], rp["config"], k))
         else:
             run.notes.append("finding %s no longer reproduces" % fid)
+    for fid, name, h, k in regressions:
+        spec_fail_unknown.append((name, h, k, ["regression of fixed finding " + fid]))
 
     # ---- verdicts
     for name, h, k, rcs in spec_fail_unknown[:5]:
